@@ -17,6 +17,10 @@
    Fix_HardExit = FALSE models sys.exit() instead of os._exit() at the last rung (a seeded mutant).
    KillOnTimeout = FALSE models a terminate() that never kills.
 
+   Env "cbraises": the remote code registered a channel callback that raises when it is handed its endmarker; the end of the
+   connection delivers that endmarker from the receiver thread.  Fix_GuardEndmarkerCallbacks = FALSE models a receiver thread in
+   which that exception escapes before _terminate_execution() is reached: the ladder never starts.
+
    WithUnkillable = TRUE adds members the initiator has no process handle for (a socket gateway to a server that was started by
    hand: SocketIO.kill() is a no-op, nothing was started locally): terminate() cannot end them, but it must not wait for them
    beyond its bound either.  Fix_BoundFinalWait = FALSE models a safe_terminate whose last wait for its helper threads is
@@ -24,7 +28,7 @@
 *)
 EXTENDS Integers, FiniteSets, TLC
 
-CONSTANTS Fix_HardExit, KillOnTimeout, WithUnkillable, Fix_BoundFinalWait,
+CONSTANTS Fix_HardExit, KillOnTimeout, WithUnkillable, Fix_BoundFinalWait, Fix_GuardEndmarkerCallbacks,
           WithLinger     \* TRUE adds the environment "linger": the remote code has returned but left a non-daemon thread or a blocking
                          \* exit hook behind - serve() returns, the interpreter does not exit (the recorded C11 finding)
 
@@ -41,18 +45,19 @@ VARIABLES Killable,    \* FALSE: no local process behind this member (chosen ini
 
 vars == <<clock, wphase, body, tstart, iphase, rung>>
 
-Init == /\ Env \in {"idle", "receive", "busy", "sleep", "swallow", "stopped", "dead"} \cup (IF WithLinger THEN {"linger"} ELSE {})
+Init == /\ Env \in {"idle", "receive", "busy", "sleep", "swallow", "stopped", "dead", "cbraises"} \cup (IF WithLinger THEN {"linger"} ELSE {})
         /\ Killable \in (IF WithUnkillable THEN BOOLEAN ELSE {TRUE})
         /\ Timeout \in 1..3 /\ InitiatorActs \in {"dies", "terminate"}
         /\ clock = 0 /\ wphase = (IF Env = "dead" THEN "gone" ELSE "serving")
-        /\ body = (IF Env \in {"idle", "dead", "linger"} THEN "ended" ELSE "running")
+        /\ body = (IF Env \in {"idle", "dead", "linger"} THEN "ended" ELSE "running")      \* ("cbraises": the body waits in receive())
         /\ tstart = 0 /\ iphase = (IF InitiatorActs = "terminate" THEN "joining" ELSE "idle") /\ rung = "none"
 
 Stopped == Env = "stopped"
 \* EOF / GATEWAY_TERMINATE reaches the worker's receiver thread: epilogue, pool shutdown, a body blocked in receive() gets EOFError
 WSeeEof ==
   /\ wphase = "serving" /\ ~Stopped
-  /\ body' = IF Env = "receive" THEN "ended" ELSE body
+  /\ (Env = "cbraises" => Fix_GuardEndmarkerCallbacks)      \* otherwise the receiver thread has died on the callback's exception
+  /\ body' = IF Env \in {"receive", "cbraises"} THEN "ended" ELSE body
   /\ wphase' = "wait5" /\ tstart' = clock
   /\ UNCHANGED <<clock, iphase, rung>>
 \* waitall(5.0) returns true: nothing is executing any more -> serve() returns, the process exits
@@ -102,7 +107,7 @@ WorkerGoneInTime == (InitiatorActs = "dies" /\ ~Stopped) => (clock > 15 => wphas
 WorkerEventuallyGone == (InitiatorActs = "dies" /\ ~Stopped) => <>(wphase = "gone")
 ExpectedRung ==
   (InitiatorActs = "dies" /\ wphase = "gone" /\ Env # "dead") =>
-     rung = (CASE Env \in {"idle", "receive"} -> "eof" [] Env \in {"busy", "sleep"} -> "sigint" [] OTHER -> "hardexit")
+     rung = (CASE Env \in {"idle", "receive", "cbraises"} -> "eof" [] Env \in {"busy", "sleep"} -> "sigint" [] OTHER -> "hardexit")
 \* C05: terminate returns within 2 * timeout (+1 tick), and then the child is gone
 TerminateReturns == InitiatorActs = "terminate" => <>(iphase = "returned")
 TerminatePrompt == (InitiatorActs = "terminate" /\ iphase # "returned") => clock <= 2 * Timeout + 1
